@@ -278,6 +278,22 @@ def _gate_worker(args):
                                        "schema-violating model (%s at %s: %s) reaches plugin %s (command failed=%s, plugin called=%s, wrote=%s)" % (
                                            name, "/".join(map(str, path)), desc, p, failed, called, wrote),
                                        {"definition": name, "rule": rule, "path": [str(x) for x in path], "edit": desc, "plugin": p}))
+            # configuration: the same gate with assertions stripped (python -O / PYTHONOPTIMIZE=1): real CLI, new process
+            import subprocess
+            from ..genrun import PY
+            o, t = os.path.join(work, "o"), os.path.join(work, "t")
+            os.makedirs(o), os.makedirs(t)
+            env = dict(os.environ)
+            env.update({"PYTHONPATH": impl.REPO, "PYTHONOPTIMIZE": "1", "PYTHONDONTWRITEBYTECODE": "1"})
+            pr = subprocess.run([PY, "-O", "-m", "generator", "--plugin", "python", "--model", bp, "--output-dir", o, "--test-dir", t],
+                                cwd=impl.REPO, env=env, capture_output=True, text=True, timeout=300)
+            wrote = os.listdir(o) + os.listdir(t)
+            rm(o), rm(t)
+            out["runs"] += 1
+            out["runs_optimized"] = out.get("runs_optimized", 0) + 1
+            if pr.returncode == 0 or wrote:
+                out["bad"].append(("gate-open", key, "with assertions stripped (python -O) the schema-violating model (%s at %s: %s) is not stopped: exit %d, wrote %s" % (
+                    name, "/".join(map(str, path)), desc, pr.returncode, wrote[:3]), {"definition": name, "rule": rule, "edit": desc, "interpreter": "python -O"}))
             # the violating document at every position of a model *list* (first, last, middle) next to valid files
             okx = os.path.join(work, "ok_ext.json")
             if not os.path.exists(okx):
@@ -324,6 +340,20 @@ def run(ctx):
 
     # ---- (a) lossless load, on the committed model and on every single schema-valid addition
     variants = [("committed", committed)] + [(l, d) for l, d in schema_valid_variants(schema, base)]
+    # annotation strings a loader might be tempted to "clean up": other line endings, tabs, outer blanks, empty, non-ASCII
+    for i, txt in enumerate(["line one\r\nline two", "a\rb", "tab\there", "  padded  ", "", "\u00e9\u2028x", "trailing newline\n", "**/*"]):
+        dv = copy.deepcopy(base)
+        st = dv["structures"][0]
+        st["documentation"] = txt
+        st["deprecated"] = txt
+        if st.get("properties"):
+            st["properties"][0]["documentation"] = txt
+        if dv.get("enumerations"):
+            dv["enumerations"][0]["documentation"] = txt
+            dv["enumerations"][0]["values"][0]["documentation"] = txt
+        if dv.get("requests"):
+            dv["requests"][0]["documentation"] = txt
+        variants.append(("annotation-text-%d" % i, dv))
     loadable = {}
     for label, d in variants:
         if any(True for _ in val.iter_errors(d)):
@@ -489,6 +519,7 @@ def run(ctx):
     for part in parts:
         stats["gate_documents"] += part["documents"]
         stats["gate_runs"] += part["runs"]
+        stats["gate_runs_optimized_interpreter"] = stats.get("gate_runs_optimized_interpreter", 0) + part.get("runs_optimized", 0)
         for k, v in part["rules"].items():
             rules_seen[k] = rules_seen.get(k, 0) + v
         for kind, site, what, rp in part["bad"]:
@@ -506,7 +537,8 @@ def run(ctx):
                 "edit at every JSON node: equal loads equal, edited loads unequal, no comparison raises; (d) every schema definition x rule kind x "
                 "site class (first/middle/last instance) single edit rejected by the rooted schema x 5 plugins (4 real with recording wrappers + spy "
                 "module): command must fail, no plugin called, nothing written - the violating document is written to a path that held a valid "
-                "model in the previous run of the same process, and is also given as the first / last / middle file of a model list next to valid files; whole-model equality under edits at the end of each section; repeated loads of the "
+                "model in the previous run of the same process, and is also given as the first / last / middle file of a model list next to valid files; every violating document also "
+                "through the real CLI under python -O (assertions stripped); whole-model equality under edits at the end of each section; repeated loads of the "
                 "same parsed documents (not altered, equal models)",
         **stats, "exhaustive": True, "samples": samples,
     }
